@@ -504,7 +504,8 @@ fn check_kit_case(c: &KitCase, sink: &Sink) {
     }
 }
 
-pub fn all_kit_cases() -> Vec<KitCase> {
+pub fn all_kit_cases(thorough: bool) -> Vec<KitCase> {
+    let positions = if thorough { 6u8 } else { 3 };
     let layouts = [Layout::Bare, Layout::Noisy, Layout::Multi(0), Layout::Multi(1), Layout::Multi(2), Layout::Indented, Layout::SameLine, Layout::Trailing];
     let mut cases = Vec::new();
     for kit in langkit::KITS {
@@ -513,7 +514,7 @@ pub fn all_kit_cases() -> Vec<KitCase> {
                 for layout in layouts {
                     for crlf in [false, true] {
                         for rule in Rule::ALL {
-                            for position in 0..3u8 {
+                            for position in 0..positions {
                                 let c = KitCase { grammar: kit.grammar, file, form, layout, crlf, rule, position };
                                 if kit_applicable(&c) {
                                     cases.push(c);
@@ -528,17 +529,18 @@ pub fn all_kit_cases() -> Vec<KitCase> {
     cases
 }
 
-pub fn all_cases() -> Vec<Case> {
+pub fn all_cases(thorough: bool) -> Vec<Case> {
     let mut cases = Vec::new();
+    let (lines, positions) = if thorough { (5u8, 5u8) } else { (3, 3) };
     for host in Host::ALL {
-        for before in 0..3u8 {
-            for after in 0..3u8 {
+        for before in 0..lines {
+            for after in 0..lines {
                 for multiline_tag in 0..3u8 {
                     for same_line in [false, true] {
                         for indent in 0..3u8 {
                             for multibyte in [false, true] {
                                 for rule in Rule::ALL {
-                                    for position in 0..3u8 {
+                                    for position in 0..positions {
                                         let c = Case { host, before, after, multiline_tag, same_line, indent, multibyte, rule, position };
                                         if applicable(&c) {
                                             cases.push(c);
@@ -558,11 +560,12 @@ pub fn all_cases() -> Vec<Case> {
 pub fn run(cfg: &Cfg, sink: &Arc<Sink>) -> Report {
     let mut report = Report::new("cases = full product of host comment form {Python #, Rust //, Rust ///, JS /* */, Rust /* */, Markdown link-reference, HTML comment, HTML comment in Markdown} × comment lines before the tag 0..2 × after the tag 0..2 × start tag on 1, 2 or 4 lines × content starting on the tag's line × indentation {none, 2 spaces, tab} × multi-byte text before tag and key × rule {sorted, sorted by regex group mid-line, unique, unique by regex group, pattern → key range; line-count, check-lua, affects (all-lines-added diff) → tag range} × offending content line 1..3; the reported range must equal the constructed position of the offending key (first to last byte) or of the start tag (`<` to `>`); non-trivial = every applicable case");
     report.assume("check-ai ranges are covered by C19's exploration (same tag range code path as check-lua)");
-    let cases = all_cases();
+    let thorough = cfg.tier == crate::core::Tier::Thorough;
+    let cases = all_cases(thorough);
     let n = cases.len();
     let cfg2 = cfg.clone();
     report.phase(engine::explore("layouts × rules", &format!("{n} cases (full product of the applicable combinations)"), Grid { cases, check: move |c: &Case, s: &Sink| check_case(c, Some(&cfg2), s) }, sink, cfg.threads, false));
-    let cases = all_kit_cases();
+    let cases = all_kit_cases(thorough);
     let n = cases.len();
     report.phase(engine::explore("every kit comment form × rules", &format!("{n} cases: 23 grammars (all 39 suffixes) × every comment form of the grammar's kit × tag layouts {{bare, noisy with multi-byte text, line 1/2/3 of a 3-line comment, indented, content on the tag's line, trailing a code line}} × LF/CRLF × 8 rules × offending line 1..3; content lines are comments of the language"), Grid { cases, check: |c: &KitCase, s: &Sink| check_kit_case(c, s) }, sink, cfg.threads, false));
     report
@@ -570,14 +573,14 @@ pub fn run(cfg: &Cfg, sink: &Arc<Sink>) -> Report {
 
 pub fn replay(cfg: &Cfg, input: &Value, sink: &Arc<Sink>) {
     if let Some(want) = input["kit_case"].as_str() {
-        match all_kit_cases().into_iter().find(|c| format!("{c:?}") == want) {
+        match all_kit_cases(true).into_iter().find(|c| format!("{c:?}") == want) {
             Some(c) => check_kit_case(&c, sink),
             None => sink.machinery("replay: unknown kit case"),
         }
         return;
     }
     let want = input["case"].as_str().unwrap_or("");
-    match all_cases().into_iter().find(|c| format!("{c:?}") == want) {
+    match all_cases(true).into_iter().find(|c| format!("{c:?}") == want) {
         Some(c) => check_case(&c, Some(cfg), sink),
         None => sink.machinery("replay: unknown case"),
     }
